@@ -1,6 +1,7 @@
 /-
 C10 helper lemmas, part a: the history machine (`SnowModel.History`): frame facts, the nickname
-invariant and the dense-save (table) invariant over arbitrary op sequences.
+invariant, the dense-save (table) invariant, monotonicity of the counters and the old-row / fresh-id
+invariants, all over arbitrary op sequences (`save`, `pick`, `reset`, `resave`).
 -/
 import SnowModel.Core.History
 import Mathlib.Tactic.SplitIfs
@@ -20,8 +21,8 @@ def newRow (s : St) (t : Name) (nk : Option Name) (i : Nat) (rs : Bool) : SRow :
 
 def newTableCtr (s : St) (t : Name) (nk : Option Name) (i : Nat) : Name → Nat :=
   match nk with
-  | some n => upd (upd s.tableCtr t i) n (s.nickCtr n + 1)
-  | none => upd s.tableCtr t i
+  | some n => upd (upd s.tableCtr t (saveTableCtr i (s.tableCtr t))) n (s.nickCtr n + 1)
+  | none => upd s.tableCtr t (saveTableCtr i (s.tableCtr t))
 
 def newNickCtr (s : St) (nk : Option Name) : Name → Nat :=
   match nk with
@@ -44,20 +45,30 @@ theorem save_ok {s s' : St} {t : Name} {nk : Option Name} {i : Nat} {rs : Bool}
     | none => simp only [Except.ok.injEq] at h; rw [← h]; rfl
     | some n => simp only [Except.ok.injEq] at h; rw [← h]; rfl
 
+theorem saveAll_cons_ok {s s' : St} {x : Name × Option Name × Nat} {rest : List (Name × Option Name × Nat)}
+    (h : saveAll s (x :: rest) = .ok s') :
+    ∃ s1, save s x.1 x.2.1 x.2.2 true = .ok s1 ∧ saveAll s1 rest = .ok s' := by
+  obtain ⟨t, n, i⟩ := x
+  simp only [saveAll] at h
+  cases hs : save s t n i true with
+  | error e => rw [hs] at h; simp at h
+  | ok s1 => rw [hs] at h; exact ⟨s1, rfl, h⟩
+
 theorem step_ok_cases {s s1 : St} {op : Op} {o : Obs} (h : step s op = .ok (s1, o)) :
-    (∃ t nk i rs, op = .save t nk i rs ∧ save s t nk i rs = .ok s1) ∨
+    (∃ t nk i, op = .save t nk i ∧ save s t nk i false = .ok s1) ∨
     (∃ name sc d, op = .pick name sc d ∧ s1 = s) ∨
-    (op = .reset ∧ s1 = resetLocals s) := by
+    (op = .reset ∧ s1 = resetLocals s) ∨
+    (∃ rows s2, op = .resave rows ∧ saveAll s rows = .ok s2 ∧ s1 = resetLocals s2) := by
   cases op with
-  | save t nk i rs =>
+  | save t nk i =>
     left
     simp only [step] at h
-    cases hs : save s t nk i rs with
+    cases hs : save s t nk i false with
     | error e => rw [hs] at h; simp at h
     | ok s' =>
       rw [hs] at h
       simp only [Except.ok.injEq, Prod.mk.injEq] at h
-      exact ⟨t, nk, i, rs, rfl, by rw [← h.1]; exact hs⟩
+      exact ⟨t, nk, i, rfl, by rw [← h.1]; exact hs⟩
   | pick name sc d =>
     right; left
     simp only [step] at h
@@ -69,9 +80,18 @@ theorem step_ok_cases {s s1 : St} {op : Op} {o : Obs} (h : step s op = .ok (s1, 
       simp only [Except.ok.injEq, Prod.mk.injEq] at h
       exact ⟨name, sc, d, rfl, h.1.symm⟩
   | reset =>
-    right; right
+    right; right; left
     simp only [step, Except.ok.injEq, Prod.mk.injEq] at h
     exact ⟨rfl, h.1.symm⟩
+  | resave rows =>
+    right; right; right
+    simp only [step] at h
+    cases hs : saveAll s rows with
+    | error e => rw [hs] at h; simp at h
+    | ok s2 =>
+      rw [hs] at h
+      simp only [Except.ok.injEq, Prod.mk.injEq] at h
+      exact ⟨rows, s2, rfl, hs, h.1.symm⟩
 
 theorem run_cons_ok {s s' : St} {op : Op} {ops : List Op} (h : run s (op :: ops) = .ok s') :
     ∃ s1 o, step s op = .ok (s1, o) ∧ run s1 ops = .ok s' := by
@@ -80,72 +100,108 @@ theorem run_cons_ok {s s' : St} {op : Op} {ops : List Op} (h : run s (op :: ops)
   | error e => rw [hs] at h; simp at h
   | ok p => obtain ⟨s1, o⟩ := p; rw [hs] at h; exact ⟨s1, o, rfl, h⟩
 
-/-- Naming discipline of a trace relative to the nickname map `nm`: a table is never a key of
-    `nm`, and a row saved under nickname `n` goes to the table `nm` gives for `n`. -/
-def WellNamedOp (nm : List (Name × Name)) : Op → Prop
-  | .save t (some n) _ _ => nm.lookup t = none ∧ nm.lookup n = some t
-  | .save t none _ _ => nm.lookup t = none
-  | _ => True
+/-! ### trace conditions -/
 
-theorem wellNamed_save {nm : List (Name × Name)} {t : Name} {nk : Option Name} {i : Nat} {rs : Bool}
-    (h : WellNamedOp nm (.save t nk i rs)) :
+/-- Naming discipline of one `save_row` call relative to the nickname map `nm`: the table is not a
+    key of `nm`, and a row saved under nickname `n` goes to the table `nm` gives for `n`. -/
+def WNSave (nm : List (Name × Name)) (t : Name) : Option Name → Prop
+  | some n => nm.lookup t = none ∧ nm.lookup n = some t
+  | none => nm.lookup t = none
+
+instance (nm : List (Name × Name)) (t : Name) (nk : Option Name) : Decidable (WNSave nm t nk) := by
+  cases nk <;> (simp only [WNSave]; infer_instance)
+
+theorem wnSave_iff {nm : List (Name × Name)} {t : Name} {nk : Option Name} (h : WNSave nm t nk) :
     nm.lookup t = none ∧ ∀ n, nk = some n → nm.lookup n = some t := by
   cases nk with
   | none => exact ⟨h, fun n hn => by cases hn⟩
   | some n' => exact ⟨h.1, fun n hn => by cases hn; exact h.2⟩
 
-instance (nm : List (Name × Name)) (op : Op) : Decidable (WellNamedOp nm op) := by
-  cases op with
-  | save t nk i rs => cases nk <;> (simp only [WellNamedOp]; infer_instance)
-  | pick a b c => simp only [WellNamedOp]; infer_instance
-  | reset => simp only [WellNamedOp]; infer_instance
-
-/-- Dense saves: an ordinary save gets the next id of its table; a re-save (continuation) names
-    an id of an earlier run and happens before the run saved rows of that table. -/
-def DenseOp (s : St) : Op → Prop
-  | .save t _ i false => i = max (s.tableCtr t) (s.localCtr t) + 1
-  | .save t _ i true => i ≤ s.localCtr t ∧ s.tableCtr t ≤ s.localCtr t
+def WellNamedOp (nm : List (Name × Name)) : Op → Prop
+  | .save t nk _ => WNSave nm t nk
+  | .resave rows => ∀ x ∈ rows, WNSave nm x.1 x.2.1
   | _ => True
 
-def DenseTrace : St → List Op → Prop
-  | _, [] => True
-  | s, op :: ops =>
-    DenseOp s op ∧
-      match step s op with
-      | .ok (s', _) => DenseTrace s' ops
-      | .error _ => True
+instance (nm : List (Name × Name)) (op : Op) : Decidable (WellNamedOp nm op) := by
+  cases op <;> (simp only [WellNamedOp]; infer_instance)
+
+/-- Dense saves: an ordinary save carries the next id of its table; a re-save names an id that is
+    not above the table's counter (an id of an earlier run). -/
+def DenseOp (s : St) : Op → Prop
+  | .save t _ i => i = s.tableCtr t + 1
+  | .resave rows => ∀ x ∈ rows, x.2.2 ≤ s.tableCtr x.1
+  | _ => True
+
+/-- Fresh ids: an ordinary save carries an id above everything the previous iterations knew
+    (`IdManager` hands out increasing ids; reserving ahead or nesting does not violate this). -/
+def FreshOp (s : St) : Op → Prop
+  | .save t _ i => s.localCtr t < i
+  | _ => True
 
 instance (s : St) (op : Op) : Decidable (DenseOp s op) := by
-  cases op with
-  | save t nk i rs => cases rs <;> (simp only [DenseOp]; infer_instance)
-  | pick a b c => simp only [DenseOp]; infer_instance
-  | reset => simp only [DenseOp]; infer_instance
+  cases op <;> (simp only [DenseOp]; infer_instance)
+instance (s : St) (op : Op) : Decidable (FreshOp s op) := by
+  cases op <;> (simp only [FreshOp]; infer_instance)
 
-def decDenseTrace : (s : St) → (ops : List Op) → Decidable (DenseTrace s ops)
+/-- A state-dependent op condition holds along the whole (successful prefix of the) trace. -/
+def TraceC (C : St → Op → Prop) : St → List Op → Prop
+  | _, [] => True
+  | s, op :: ops =>
+    C s op ∧
+      match step s op with
+      | .ok (s', _) => TraceC C s' ops
+      | .error _ => True
+
+def decTraceC (C : St → Op → Prop) [∀ s op, Decidable (C s op)] :
+    (s : St) → (ops : List Op) → Decidable (TraceC C s ops)
   | _, [] => isTrue trivial
   | s, op :: ops =>
     match h : step s op with
     | .ok (s', _) =>
-      have := decDenseTrace s' ops
-      decidable_of_iff (DenseOp s op ∧ DenseTrace s' ops) (by simp [DenseTrace, h])
-    | .error _ => decidable_of_iff (DenseOp s op) (by simp [DenseTrace, h])
+      have := decTraceC C s' ops
+      decidable_of_iff (C s op ∧ TraceC C s' ops) (by simp [TraceC, h])
+    | .error _ => decidable_of_iff (C s op) (by simp [TraceC, h])
 
-instance (s : St) (ops : List Op) : Decidable (DenseTrace s ops) := decDenseTrace s ops
+instance (C : St → Op → Prop) [∀ s op, Decidable (C s op)] (s : St) (ops : List Op) :
+    Decidable (TraceC C s ops) := decTraceC C s ops
+
+abbrev DenseTrace := TraceC DenseOp
+abbrev FreshTrace := TraceC FreshOp
+
+theorem save_frame {s s' : St} {t : Name} {nk : Option Name} {i : Nat} {rs : Bool}
+    (h : save s t nk i rs = .ok s') :
+    s'.nickToTable = s.nickToTable ∧ s'.tables = s.tables ∧ s'.prior = s.prior ∧
+    s'.localCtr = s.localCtr ∧ s'.epoch = s.epoch := by
+  obtain ⟨-, -, rfl⟩ := save_ok h; exact ⟨rfl, rfl, rfl, rfl, rfl⟩
+
+theorem saveAll_frame (rows : List (Name × Option Name × Nat)) : ∀ {s s' : St},
+    saveAll s rows = .ok s' →
+    s'.nickToTable = s.nickToTable ∧ s'.tables = s.tables ∧ s'.prior = s.prior ∧
+    s'.localCtr = s.localCtr ∧ s'.epoch = s.epoch := by
+  induction rows with
+  | nil => intro s s' h; simp only [saveAll, Except.ok.injEq] at h; subst h; exact ⟨rfl, rfl, rfl, rfl, rfl⟩
+  | cons x rest ih =>
+    intro s s' h
+    obtain ⟨s1, h1, h2⟩ := saveAll_cons_ok h
+    obtain ⟨a1, a2, a3, a4, a5⟩ := save_frame h1
+    obtain ⟨b1, b2, b3, b4, b5⟩ := ih h2
+    exact ⟨b1.trans a1, b2.trans a2, b3.trans a3, b4.trans a4, b5.trans a5⟩
 
 theorem step_frame {s s1 : St} {op : Op} {o : Obs} (h : step s op = .ok (s1, o)) :
     s1.nickToTable = s.nickToTable ∧ s1.tables = s.tables ∧ s1.prior = s.prior := by
-  rcases step_ok_cases h with ⟨t, nk, i, rs, -, hs⟩ | ⟨_, _, _, -, rfl⟩ | ⟨-, rfl⟩
-  · obtain ⟨-, -, rfl⟩ := save_ok hs; exact ⟨rfl, rfl, rfl⟩
+  rcases step_ok_cases h with ⟨t, nk, i, -, hs⟩ | ⟨_, _, _, -, rfl⟩ | ⟨-, rfl⟩ | ⟨rows, s2, -, hs, rfl⟩
+  · obtain ⟨a, b, c, -, -⟩ := save_frame hs; exact ⟨a, b, c⟩
   · exact ⟨rfl, rfl, rfl⟩
   · exact ⟨rfl, rfl, rfl⟩
+  · obtain ⟨a, b, c, -, -⟩ := saveAll_frame rows hs; exact ⟨a, b, c⟩
 
-/-- Invariant induction over a successful run, with the naming discipline and the dense-save
-    condition available at every step. -/
-theorem run_invariant (nm : List (Name × Name)) (P : St → Prop)
-    (hstep : ∀ s op s1 o, s.nickToTable = nm → P s → WellNamedOp nm op → DenseOp s op →
+/-- Invariant induction over a successful run with the naming discipline and a state-dependent
+    op condition `C` available at every step. -/
+theorem run_invariant (nm : List (Name × Name)) (C : St → Op → Prop) (P : St → Prop)
+    (hstep : ∀ s op s1 o, s.nickToTable = nm → P s → WellNamedOp nm op → C s op →
       step s op = .ok (s1, o) → P s1) :
     ∀ (ops : List Op) (s s' : St), s.nickToTable = nm → P s → (∀ op ∈ ops, WellNamedOp nm op) →
-      DenseTrace s ops → run s ops = .ok s' → P s' ∧ s'.nickToTable = nm := by
+      TraceC C s ops → run s ops = .ok s' → P s' ∧ s'.nickToTable = nm := by
   intro ops
   induction ops with
   | nil => intro s s' hnm hp _ _ h; simp only [run, Except.ok.injEq] at h; subst h; exact ⟨hp, hnm⟩
@@ -153,26 +209,63 @@ theorem run_invariant (nm : List (Name × Name)) (P : St → Prop)
     intro s s' hnm hp hwn hd h
     obtain ⟨s1, o, h1, h2⟩ := run_cons_ok h
     have hd' := hd
-    simp only [DenseTrace, h1] at hd'
+    simp only [TraceC, h1] at hd'
     exact ih s1 s' ((step_frame h1).1.trans hnm)
       (hstep s op s1 o hnm hp (hwn op (by simp)) hd'.1 h1)
       (fun op' h' => hwn op' (by simp [h'])) hd'.2 h2
 
-/-- The same without the dense-save condition. -/
+theorem traceC_true (s : St) (ops : List Op) : TraceC (fun _ _ => True) s ops := by
+  induction ops generalizing s with
+  | nil => trivial
+  | cons op ops ih =>
+    simp only [TraceC, true_and]
+    cases step s op with
+    | error e => trivial
+    | ok p => exact ih p.1
+
+/-- The same without an op condition. -/
 theorem run_invariant' (nm : List (Name × Name)) (P : St → Prop)
     (hstep : ∀ s op s1 o, s.nickToTable = nm → P s → WellNamedOp nm op →
       step s op = .ok (s1, o) → P s1) :
     ∀ (ops : List Op) (s s' : St), s.nickToTable = nm → P s → (∀ op ∈ ops, WellNamedOp nm op) →
-      run s ops = .ok s' → P s' ∧ s'.nickToTable = nm := by
-  intro ops
-  induction ops with
-  | nil => intro s s' hnm hp _ h; simp only [run, Except.ok.injEq] at h; subst h; exact ⟨hp, hnm⟩
-  | cons op ops ih =>
-    intro s s' hnm hp hwn h
-    obtain ⟨s1, o, h1, h2⟩ := run_cons_ok h
-    exact ih s1 s' ((step_frame h1).1.trans hnm)
-      (hstep s op s1 o hnm hp (hwn op (by simp)) h1)
-      (fun op' h' => hwn op' (by simp [h'])) h2
+      run s ops = .ok s' → P s' ∧ s'.nickToTable = nm :=
+  fun ops s s' hnm hp hwn h =>
+    run_invariant nm (fun _ _ => True) P (fun s op s1 o a b c _ e => hstep s op s1 o a b c e)
+      ops s s' hnm hp hwn (traceC_true s ops) h
+
+/-- Lifting a `save`-level and a `reset`-level preservation lemma to `step`; `SC s t i rs` is the
+    side condition on a single save, `OC` the op condition it is derived from. -/
+theorem step_lift (nm : List (Name × Name)) (P : St → Prop) (SC : St → Name → Nat → Bool → Prop)
+    (hsave : ∀ s t nk i rs s', s.nickToTable = nm → P s → WNSave nm t nk → SC s t i rs →
+      save s t nk i rs = .ok s' → P s')
+    (hreset : ∀ s, P s → P (resetLocals s))
+    (htrans : ∀ s t nk i s' t' i', s.nickToTable = nm → WNSave nm t nk → nm.lookup t' = none →
+      save s t nk i true = .ok s' → SC s t' i' true → SC s' t' i' true)
+    (s : St) (op : Op) (s1 : St) (o : Obs) (hnm : s.nickToTable = nm) (hp : P s)
+    (hw : WellNamedOp nm op)
+    (hc : match op with
+      | .save t _ i => SC s t i false
+      | .resave rows => ∀ x ∈ rows, SC s x.1 x.2.2 true
+      | _ => True)
+    (h : step s op = .ok (s1, o)) : P s1 := by
+  rcases step_ok_cases h with ⟨t, nk, i, rfl, hs⟩ | ⟨_, _, _, -, rfl⟩ | ⟨-, rfl⟩ | ⟨rows, s2, rfl, hs, rfl⟩
+  · exact hsave s t nk i false s1 hnm hp hw hc hs
+  · exact hp
+  · exact hreset s hp
+  · apply hreset
+    simp only [WellNamedOp] at hw
+    simp only at hc
+    clear h
+    induction rows generalizing s with
+    | nil => simp only [saveAll, Except.ok.injEq] at hs; subst hs; exact hp
+    | cons x rest ih =>
+      obtain ⟨sa, h1, h2⟩ := saveAll_cons_ok hs
+      have hwx := hw x (by simp)
+      refine ih sa ((save_frame h1).1.trans hnm)
+        (hsave s x.1 x.2.1 x.2.2 true sa hnm hp hwx (hc x (by simp)) h1)
+        (fun y hy => hw y (by simp [hy])) (fun y hy => ?_) h2
+      exact htrans s x.1 x.2.1 x.2.2 sa y.1 y.2.2 hnm hwx (wnSave_iff (hw y (by simp [hy]))).1 h1
+        (hc y (by simp [hy]))
 
 /-! ### the range computation, unfolded -/
 
@@ -207,6 +300,16 @@ theorem fallback_current (loc M : Nat) :
     fallback (minIdOf .current loc) M = if M < loc + 1 then 1 else loc + 1 := by
   simp [fallback, minIdOf, minIdLocal]
 
+/-- `current-iteration` range of a table whose window is non-empty: no fallback. -/
+theorem pickRange_table_window (s : St) (T : Name) (hT : s.nickToTable.lookup T = none)
+    (hw : s.localCtr T < s.tableCtr T) :
+    pickRange s T .current =
+      .ok { nick := none, table := T, lo := s.localCtr T + 1, hi := s.tableCtr T } := by
+  rw [pickRange_table s T .current hT, fallback_current]
+  have h0 : s.tableCtr T ≠ 0 := by omega
+  have h1 : ¬ s.tableCtr T < s.localCtr T + 1 := by omega
+  simp [h0, h1]
+
 /-! ### the nickname invariant -/
 
 structure NickInv (s : St) (n T : Name) : Prop where
@@ -218,226 +321,524 @@ structure NickInv (s : St) (n T : Name) : Prop where
   win : ∀ r ∈ s.rows, r.nick = some n → ∀ k, r.ord = some k → (r.since = s.epoch ↔ s.localCtr n < k)
   ep : ∀ r ∈ s.rows, r.since ≤ s.epoch
 
-theorem nickInv_step (nm : List (Name × Name)) (n T : Name) (hn : nm.lookup n = some T)
-    (s : St) (op : Op) (s1 : St) (o : Obs) (_hnm : s.nickToTable = nm) (hi : NickInv s n T)
-    (hw : WellNamedOp nm op) (h : step s op = .ok (s1, o)) : NickInv s1 n T := by
-  rcases step_ok_cases h with ⟨t, nk, i, rs, rfl, hs⟩ | ⟨_, _, _, -, rfl⟩ | ⟨-, rfl⟩
-  · obtain ⟨-, -, rfl⟩ := save_ok hs
-    obtain ⟨hwt, hwn⟩ := wellNamed_save hw
-    have htn : n ≠ t := by intro e; rw [e, hwt] at hn; cases hn
-    by_cases hnk : nk = some n
-    · -- a row saved under this nickname
-      subst hnk
-      have htT : t = T := by have := hwn n rfl; rw [hn] at this; exact (Option.some.inj this).symm
-      subst htT
-      refine ⟨?_, ?_, ?_, ?_, ?_, ?_, ?_⟩
-      · intro r hr hrn
-        simp only [List.mem_append, List.mem_singleton] at hr
-        rcases hr with hr | rfl
-        · exact hi.tbl r hr hrn
-        · rfl
-      · intro r hr hrn
-        simp only [List.mem_append, List.mem_singleton] at hr
-        simp only [newNickCtr, upd_same]
-        rcases hr with hr | rfl
-        · obtain ⟨k, h1, h2, h3⟩ := hi.ordle r hr hrn
-          exact ⟨k, h1, h2, by omega⟩
-        · exact ⟨s.nickCtr n + 1, rfl, by omega, by omega⟩
-      · intro k hk1 hk2
-        simp only [newNickCtr, upd_same] at hk2
-        by_cases hk : k ≤ s.nickCtr n
-        · obtain ⟨r, hr, h1, h2⟩ := hi.ex k hk1 hk
-          exact ⟨r, by simp [hr], h1, h2⟩
-        · have : k = s.nickCtr n + 1 := by omega
-          subst this
-          exact ⟨newRow s t (some n) i rs, by simp, rfl, rfl⟩
-      · simp [newTableCtr, newNickCtr]
-      · have := hi.lc
-        simp only [newNickCtr, upd_same]
-        omega
-      · intro r hr hrn k hk
-        simp only [List.mem_append, List.mem_singleton] at hr
-        rcases hr with hr | rfl
-        · exact hi.win r hr hrn k hk
-        · simp only [newRow, Option.map_some, Option.some.injEq] at hk
-          subst hk
-          have := hi.lc
-          simp only [newRow, true_iff]
-          omega
-      · intro r hr
-        simp only [List.mem_append, List.mem_singleton] at hr
-        rcases hr with hr | rfl
-        · exact hi.ep r hr
-        · exact Nat.le_refl _
-    · -- some other row
-      have hnc : newNickCtr s nk n = s.nickCtr n := by
-        cases nk with
-        | none => rfl
-        | some n' =>
-          have : n ≠ n' := fun e => hnk (by rw [e])
-          simp [newNickCtr, upd_other _ _ _ _ this]
-      have htc : newTableCtr s t nk i n = s.tableCtr n := by
-        cases nk with
-        | none => simp [newTableCtr, upd_other _ _ _ _ htn]
-        | some n' =>
-          have : n ≠ n' := fun e => hnk (by rw [e])
-          simp [newTableCtr, upd_other _ _ _ _ this, upd_other _ _ _ _ htn]
-      have hold : ∀ r ∈ s.rows ++ [newRow s t nk i rs], r.nick = some n → r ∈ s.rows := by
-        intro r hr hrn
-        simp only [List.mem_append, List.mem_singleton] at hr
-        rcases hr with hr | rfl
-        · exact hr
-        · exact absurd hrn hnk
-      refine ⟨?_, ?_, ?_, ?_, ?_, ?_, ?_⟩
-      · intro r hr hrn; exact hi.tbl r (hold r hr hrn) hrn
-      · intro r hr hrn; simp only [hnc]; exact hi.ordle r (hold r hr hrn) hrn
-      · intro k hk1 hk2
-        simp only [hnc] at hk2
-        obtain ⟨r, hr, h1, h2⟩ := hi.ex k hk1 hk2
+theorem nickInv_save (nm : List (Name × Name)) (n T : Name) (hn : nm.lookup n = some T)
+    (s : St) (t : Name) (nk : Option Name) (i : Nat) (rs : Bool) (s' : St)
+    (hi : NickInv s n T) (hw : WNSave nm t nk) (hs : save s t nk i rs = .ok s') : NickInv s' n T := by
+  obtain ⟨-, -, rfl⟩ := save_ok hs
+  obtain ⟨hwt, hwn⟩ := wnSave_iff hw
+  have htn : n ≠ t := by intro e; rw [e, hwt] at hn; cases hn
+  by_cases hnk : nk = some n
+  · subst hnk
+    have htT : t = T := by have := hwn n rfl; rw [hn] at this; exact (Option.some.inj this).symm
+    subst htT
+    refine ⟨?_, ?_, ?_, ?_, ?_, ?_, ?_⟩
+    · intro r hr hrn
+      simp only [List.mem_append, List.mem_singleton] at hr
+      rcases hr with hr | rfl
+      · exact hi.tbl r hr hrn
+      · rfl
+    · intro r hr hrn
+      simp only [List.mem_append, List.mem_singleton] at hr
+      simp only [newNickCtr, upd_same]
+      rcases hr with hr | rfl
+      · obtain ⟨k, h1, h2, h3⟩ := hi.ordle r hr hrn
+        exact ⟨k, h1, h2, by omega⟩
+      · exact ⟨s.nickCtr n + 1, rfl, by omega, by omega⟩
+    · intro k hk1 hk2
+      simp only [newNickCtr, upd_same] at hk2
+      by_cases hk : k ≤ s.nickCtr n
+      · obtain ⟨r, hr, h1, h2⟩ := hi.ex k hk1 hk
         exact ⟨r, by simp [hr], h1, h2⟩
-      · simp only [hnc, htc]; exact hi.tc
-      · simp only [hnc]; exact hi.lc
-      · intro r hr hrn k hk; exact hi.win r (hold r hr hrn) hrn k hk
-      · intro r hr
-        simp only [List.mem_append, List.mem_singleton] at hr
-        rcases hr with hr | rfl
-        · exact hi.ep r hr
-        · exact Nat.le_refl _
-  · exact hi
-  · refine ⟨hi.tbl, hi.ordle, hi.ex, hi.tc, ?_, ?_, ?_⟩
-    · simp only [resetLocals]; rw [hi.tc]; exact Nat.le_refl _
+      · have : k = s.nickCtr n + 1 := by omega
+        subst this
+        exact ⟨newRow s t (some n) i rs, by simp, rfl, rfl⟩
+    · simp [newTableCtr, newNickCtr]
+    · have := hi.lc
+      simp only [newNickCtr, upd_same]
+      omega
     · intro r hr hrn k hk
-      simp only [resetLocals]
-      obtain ⟨k', h1, h2, h3⟩ := hi.ordle r hr hrn
-      rw [hk] at h1
-      have hkk : k = k' := Option.some.inj h1
-      have := hi.ep r hr
-      rw [hi.tc]
-      constructor <;> intro <;> omega
+      simp only [List.mem_append, List.mem_singleton] at hr
+      rcases hr with hr | rfl
+      · exact hi.win r hr hrn k hk
+      · simp only [newRow, Option.map_some, Option.some.injEq] at hk
+        subst hk
+        have := hi.lc
+        simp only [newRow, true_iff]
+        omega
     · intro r hr
-      have := hi.ep r hr
-      simp only [resetLocals]; omega
+      simp only [List.mem_append, List.mem_singleton] at hr
+      rcases hr with hr | rfl
+      · exact hi.ep r hr
+      · exact Nat.le_refl _
+  · have hnc : newNickCtr s nk n = s.nickCtr n := by
+      cases nk with
+      | none => rfl
+      | some n' =>
+        have : n ≠ n' := fun e => hnk (by rw [e])
+        simp [newNickCtr, upd_other _ _ _ _ this]
+    have htc : newTableCtr s t nk i n = s.tableCtr n := by
+      cases nk with
+      | none => simp [newTableCtr, upd_other _ _ _ _ htn]
+      | some n' =>
+        have : n ≠ n' := fun e => hnk (by rw [e])
+        simp [newTableCtr, upd_other _ _ _ _ this, upd_other _ _ _ _ htn]
+    have hold : ∀ r ∈ s.rows ++ [newRow s t nk i rs], r.nick = some n → r ∈ s.rows := by
+      intro r hr hrn
+      simp only [List.mem_append, List.mem_singleton] at hr
+      rcases hr with hr | rfl
+      · exact hr
+      · exact absurd hrn hnk
+    refine ⟨?_, ?_, ?_, ?_, ?_, ?_, ?_⟩
+    · intro r hr hrn; exact hi.tbl r (hold r hr hrn) hrn
+    · intro r hr hrn; simp only [hnc]; exact hi.ordle r (hold r hr hrn) hrn
+    · intro k hk1 hk2
+      simp only [hnc] at hk2
+      obtain ⟨r, hr, h1, h2⟩ := hi.ex k hk1 hk2
+      exact ⟨r, by simp [hr], h1, h2⟩
+    · simp only [hnc, htc]; exact hi.tc
+    · simp only [hnc]; exact hi.lc
+    · intro r hr hrn k hk; exact hi.win r (hold r hr hrn) hrn k hk
+    · intro r hr
+      simp only [List.mem_append, List.mem_singleton] at hr
+      rcases hr with hr | rfl
+      · exact hi.ep r hr
+      · exact Nat.le_refl _
+
+theorem nickInv_reset (s : St) (n T : Name) (hi : NickInv s n T) : NickInv (resetLocals s) n T := by
+  refine ⟨hi.tbl, hi.ordle, hi.ex, hi.tc, ?_, ?_, ?_⟩
+  · simp only [resetLocals]; rw [hi.tc]; exact Nat.le_refl _
+  · intro r hr hrn k hk
+    simp only [resetLocals]
+    obtain ⟨k', h1, h2, h3⟩ := hi.ordle r hr hrn
+    rw [hk] at h1
+    have hkk : k = k' := Option.some.inj h1
+    have := hi.ep r hr
+    rw [hi.tc]
+    constructor <;> intro <;> omega
+  · intro r hr
+    have := hi.ep r hr
+    simp only [resetLocals]; omega
+
+theorem nickInv_step (nm : List (Name × Name)) (n T : Name) (hn : nm.lookup n = some T)
+    (s : St) (op : Op) (s1 : St) (o : Obs) (hnm : s.nickToTable = nm) (hi : NickInv s n T)
+    (hw : WellNamedOp nm op) (h : step s op = .ok (s1, o)) : NickInv s1 n T :=
+  step_lift nm (fun s => NickInv s n T) (fun _ _ _ _ => True)
+    (fun s t nk i rs s' _ hp hw _ hs => nickInv_save nm n T hn s t nk i rs s' hp hw hs)
+    (fun s hp => nickInv_reset s n T hp) (fun _ _ _ _ _ _ _ _ _ _ _ _ => trivial)
+    s op s1 o hnm hi hw (by cases op <;> simp) h
 
 theorem nickInv_init (counters : List (Name × Nat)) (tables : List Name) (nickmap : List (Name × Name))
     (n T : Name) (h0 : ctrOf counters n = 0) : NickInv (init counters tables nickmap) n T := by
   refine ⟨?_, ?_, ?_, ?_, ?_, ?_, ?_⟩ <;> simp [init, h0]
   intro k h1 h2; omega
 
+/-! ### table counters -/
+
+theorem newTableCtr_table (nm : List (Name × Name)) (s : St) (t : Name) (nk : Option Name) (i : Nat)
+    (T : Name) (hT : nm.lookup T = none) (hwn : ∀ n, nk = some n → nm.lookup n = some t) :
+    newTableCtr s t nk i T = if T = t then max i (s.tableCtr T) else s.tableCtr T := by
+  by_cases hTt : T = t
+  · subst hTt
+    cases nk with
+    | none => simp [newTableCtr, upd, saveTableCtr]
+    | some n' =>
+      have : T ≠ n' := by intro e; have := hwn n' rfl; rw [← e, hT] at this; cases this
+      simp [newTableCtr, upd, this, saveTableCtr]
+  · cases nk with
+    | none => simp [newTableCtr, upd, saveTableCtr, hTt]
+    | some n' =>
+      have : T ≠ n' := by intro e; have := hwn n' rfl; rw [← e, hT] at this; cases this
+      simp [newTableCtr, upd, this, saveTableCtr, hTt]
+
+/-- Basic order facts, valid for every op sequence: the window bound never exceeds the counter,
+    every saved id is covered by the counter, rows of earlier windows and ids of earlier runs lie
+    below the window bound. -/
+structure OrdInv (s : St) (T : Name) : Prop where
+  le : s.localCtr T ≤ s.tableCtr T
+  all : ∀ r ∈ s.rows, r.table = T → r.id ≤ s.tableCtr T
+  old : ∀ r ∈ s.rows, r.table = T → r.since < s.epoch → r.id ≤ s.localCtr T
+  pri : s.prior T ≤ s.localCtr T
+  ep : ∀ r ∈ s.rows, r.since ≤ s.epoch
+
+theorem ordInv_save (nm : List (Name × Name)) (T : Name) (hT : nm.lookup T = none)
+    (s : St) (t : Name) (nk : Option Name) (i : Nat) (rs : Bool) (s' : St)
+    (hi : OrdInv s T) (hw : WNSave nm t nk) (hs : save s t nk i rs = .ok s') : OrdInv s' T := by
+  obtain ⟨-, -, rfl⟩ := save_ok hs
+  have htc := newTableCtr_table nm s t nk i T hT (wnSave_iff hw).2
+  refine ⟨?_, ?_, ?_, hi.pri, ?_⟩
+  · have := hi.le
+    simp only [htc]; split <;> omega
+  · intro r hr hrt
+    simp only [List.mem_append, List.mem_singleton] at hr
+    simp only [htc]
+    rcases hr with hr | rfl
+    · have := hi.all r hr hrt
+      split <;> omega
+    · simp only [newRow] at hrt ⊢
+      subst hrt
+      simp only [if_true]
+      omega
+  · intro r hr hrt hrs
+    simp only [List.mem_append, List.mem_singleton] at hr
+    rcases hr with hr | rfl
+    · exact hi.old r hr hrt hrs
+    · simp [newRow] at hrs
+  · intro r hr
+    simp only [List.mem_append, List.mem_singleton] at hr
+    rcases hr with hr | rfl
+    · exact hi.ep r hr
+    · exact Nat.le_refl _
+
+theorem ordInv_reset (s : St) (T : Name) (hi : OrdInv s T) : OrdInv (resetLocals s) T := by
+  refine ⟨Nat.le_refl _, hi.all, ?_, ?_, ?_⟩
+  · intro r hr hrt _
+    exact hi.all r hr hrt
+  · have := hi.pri; have := hi.le; simp only [resetLocals]; omega
+  · intro r hr
+    have := hi.ep r hr
+    simp only [resetLocals]; omega
+
+theorem ordInv_step (nm : List (Name × Name)) (T : Name) (hT : nm.lookup T = none)
+    (s : St) (op : Op) (s1 : St) (o : Obs) (hnm : s.nickToTable = nm) (hi : OrdInv s T)
+    (hw : WellNamedOp nm op) (h : step s op = .ok (s1, o)) : OrdInv s1 T :=
+  step_lift nm (fun s => OrdInv s T) (fun _ _ _ _ => True)
+    (fun s t nk i rs s' _ hp hw _ hs => ordInv_save nm T hT s t nk i rs s' hp hw hs)
+    (fun s hp => ordInv_reset s T hp) (fun _ _ _ _ _ _ _ _ _ _ _ _ => trivial)
+    s op s1 o hnm hi hw (by cases op <;> simp) h
+
+theorem ordInv_init (counters : List (Name × Nat)) (tables : List Name) (nickmap : List (Name × Name))
+    (T : Name) : OrdInv (init counters tables nickmap) T := by
+  refine ⟨?_, ?_, ?_, ?_, ?_⟩ <;> simp [init]
+
+/-- Re-saved rows are never in the current window (at op boundaries): `Op.resave` ends with
+    `reset_locals()` (fix 9826fcb). -/
+def ResavedOld (s : St) : Prop :=
+  (∀ r ∈ s.rows, r.since ≤ s.epoch) ∧ ∀ r ∈ s.rows, r.resaved = true → r.since < s.epoch
+
+theorem saveAll_ep (rows : List (Name × Option Name × Nat)) : ∀ {s s' : St},
+    saveAll s rows = .ok s' → (∀ r ∈ s.rows, r.since ≤ s.epoch) → ∀ r ∈ s'.rows, r.since ≤ s'.epoch := by
+  induction rows with
+  | nil => intro s s' h hp; simp only [saveAll, Except.ok.injEq] at h; subst h; exact hp
+  | cons x rest ih =>
+    intro s s' h hp
+    obtain ⟨s1, h1, h2⟩ := saveAll_cons_ok h
+    refine ih h2 ?_
+    obtain ⟨-, -, rfl⟩ := save_ok h1
+    intro r hr
+    simp only [List.mem_append, List.mem_singleton] at hr
+    rcases hr with hr | rfl
+    · exact hp r hr
+    · exact Nat.le_refl _
+
+theorem resavedOld_step (s : St) (op : Op) (s1 : St) (o : Obs) (hi : ResavedOld s)
+    (h : step s op = .ok (s1, o)) : ResavedOld s1 := by
+  rcases step_ok_cases h with ⟨t, nk, i, rfl, hs⟩ | ⟨_, _, _, -, rfl⟩ | ⟨-, rfl⟩ | ⟨rows, s2, rfl, hs, rfl⟩
+  · obtain ⟨-, -, rfl⟩ := save_ok hs
+    constructor
+    · intro r hr
+      simp only [List.mem_append, List.mem_singleton] at hr
+      rcases hr with hr | rfl
+      · exact hi.1 r hr
+      · exact Nat.le_refl _
+    · intro r hr hrs
+      simp only [List.mem_append, List.mem_singleton] at hr
+      rcases hr with hr | rfl
+      · exact hi.2 r hr hrs
+      · simp [newRow] at hrs
+  · exact hi
+  · constructor
+    · intro r hr; have := hi.1 r hr; simp only [resetLocals]; omega
+    · intro r hr hrs; have := hi.2 r hr hrs; simp only [resetLocals]; omega
+  · have hep := saveAll_ep rows hs hi.1
+    constructor
+    · intro r hr; have := hep r hr; simp only [resetLocals]; omega
+    · intro r hr _; have := hep r hr; simp only [resetLocals]; omega
+
+theorem resavedOld_run (ops : List Op) : ∀ (s s' : St), ResavedOld s → run s ops = .ok s' → ResavedOld s' := by
+  induction ops with
+  | nil => intro s s' hp h; simp only [run, Except.ok.injEq] at h; subst h; exact hp
+  | cons op ops ih =>
+    intro s s' hp h
+    obtain ⟨s1, o, h1, h2⟩ := run_cons_ok h
+    exact ih s1 s' (resavedOld_step s op s1 o hp h1) h2
+
+/-! ### monotonicity of the counters (fix 9826fcb) -/
+
+/-- How the counters of a table at a later state `s'` relate to an earlier state `s`. -/
+structure Mono (T : Name) (s s' : St) : Prop where
+  tc : s.tableCtr T ≤ s'.tableCtr T
+  lc : s.localCtr T ≤ s'.localCtr T
+  le : s'.localCtr T ≤ s'.tableCtr T
+  /-- either no `reset_locals` happened in between, or the window moved past the old counter -/
+  mv : s'.localCtr T = s.localCtr T ∨ s.tableCtr T ≤ s'.localCtr T
+
+theorem mono_refl (T : Name) (s : St) (h : s.localCtr T ≤ s.tableCtr T) : Mono T s s :=
+  ⟨Nat.le_refl _, Nat.le_refl _, h, Or.inl rfl⟩
+
+theorem mono_trans {T : Name} {s s1 s2 : St} (a : Mono T s s1) (b : Mono T s1 s2) : Mono T s s2 := by
+  refine ⟨Nat.le_trans a.tc b.tc, Nat.le_trans a.lc b.lc, b.le, ?_⟩
+  rcases b.mv with h | h
+  · rcases a.mv with h' | h'
+    · exact Or.inl (h.trans h')
+    · exact Or.inr (by omega)
+  · exact Or.inr (Nat.le_trans a.tc h)
+
+theorem mono_save (nm : List (Name × Name)) (T : Name) (hT : nm.lookup T = none)
+    (s : St) (t : Name) (nk : Option Name) (i : Nat) (rs : Bool) (s' : St)
+    (hle : s.localCtr T ≤ s.tableCtr T) (hw : WNSave nm t nk) (hs : save s t nk i rs = .ok s') :
+    Mono T s s' := by
+  obtain ⟨-, -, rfl⟩ := save_ok hs
+  have htc := newTableCtr_table nm s t nk i T hT (wnSave_iff hw).2
+  refine ⟨?_, Nat.le_refl _, ?_, Or.inl rfl⟩
+  · simp only [htc]; split <;> omega
+  · simp only [htc]; split <;> omega
+
+theorem mono_reset (T : Name) (s : St) (hle : s.localCtr T ≤ s.tableCtr T) : Mono T s (resetLocals s) :=
+  ⟨Nat.le_refl _, hle, Nat.le_refl _, Or.inr (Nat.le_refl _)⟩
+
+theorem mono_saveAll (nm : List (Name × Name)) (T : Name) (hT : nm.lookup T = none)
+    (rows : List (Name × Option Name × Nat)) : ∀ (s s' : St), s.localCtr T ≤ s.tableCtr T →
+      (∀ x ∈ rows, WNSave nm x.1 x.2.1) → saveAll s rows = .ok s' → Mono T s s' := by
+  induction rows with
+  | nil => intro s s' hle _ h; simp only [saveAll, Except.ok.injEq] at h; cases h; exact mono_refl T _ hle
+  | cons x rest ih =>
+    intro s s' hle hw h
+    obtain ⟨s1, h1, h2⟩ := saveAll_cons_ok h
+    have m1 := mono_save nm T hT s x.1 x.2.1 x.2.2 true s1 hle (hw x (by simp)) h1
+    exact mono_trans m1 (ih s1 s' m1.le (fun y hy => hw y (by simp [hy])) h2)
+
+theorem mono_step (nm : List (Name × Name)) (T : Name) (hT : nm.lookup T = none)
+    (s : St) (op : Op) (s1 : St) (o : Obs) (hle : s.localCtr T ≤ s.tableCtr T)
+    (hw : WellNamedOp nm op) (h : step s op = .ok (s1, o)) : Mono T s s1 := by
+  rcases step_ok_cases h with ⟨t, nk, i, rfl, hs⟩ | ⟨_, _, _, -, rfl⟩ | ⟨-, rfl⟩ | ⟨rows, s2, rfl, hs, rfl⟩
+  · exact mono_save nm T hT s t nk i false s1 hle hw hs
+  · exact mono_refl T _ hle
+  · exact mono_reset T s hle
+  · have m1 := mono_saveAll nm T hT rows s s2 hle hw hs
+    exact mono_trans m1 (mono_reset T s2 m1.le)
+
+theorem mono_run (nm : List (Name × Name)) (T : Name) (hT : nm.lookup T = none) (ops : List Op) :
+    ∀ (s s' : St), s.localCtr T ≤ s.tableCtr T → (∀ op ∈ ops, WellNamedOp nm op) →
+      run s ops = .ok s' → Mono T s s' := by
+  induction ops with
+  | nil => intro s s' hle _ h; simp only [run, Except.ok.injEq] at h; cases h; exact mono_refl T _ hle
+  | cons op ops ih =>
+    intro s s' hle hw h
+    obtain ⟨s1, o, h1, h2⟩ := run_cons_ok h
+    have m1 := mono_step nm T hT s op s1 o hle (hw op (by simp)) h1
+    exact mono_trans m1 (ih s1 s' m1.le (fun op' h' => hw op' (by simp [h'])) h2)
+
+/-! ### fresh ids: rows of the running iteration lie above the window bound -/
+
+def FreshInv (s : St) (T : Name) : Prop :=
+  (∀ r ∈ s.rows, r.since ≤ s.epoch) ∧
+  ∀ r ∈ s.rows, r.table = T → r.since = s.epoch → r.resaved = false → s.localCtr T < r.id
+
+theorem freshInv_step (nm : List (Name × Name)) (T : Name)
+    (s : St) (op : Op) (s1 : St) (o : Obs) (hnm : s.nickToTable = nm) (hi : FreshInv s T)
+    (hw : WellNamedOp nm op) (hc : FreshOp s op) (h : step s op = .ok (s1, o)) : FreshInv s1 T := by
+  refine step_lift nm (fun s => FreshInv s T) (fun s t i rs => rs = false → s.localCtr t < i)
+    ?_ ?_ ?_ s op s1 o hnm hi hw ?_ h
+  · intro s t nk i rs s' _ hp _ hsc hs
+    obtain ⟨-, -, rfl⟩ := save_ok hs
+    constructor
+    · intro r hr
+      simp only [List.mem_append, List.mem_singleton] at hr
+      rcases hr with hr | rfl
+      · exact hp.1 r hr
+      · exact Nat.le_refl _
+    · intro r hr h1 h2 h3
+      simp only [List.mem_append, List.mem_singleton] at hr
+      rcases hr with hr | rfl
+      · exact hp.2 r hr h1 h2 h3
+      · simp only [newRow] at h1 h3 ⊢
+        subst h1
+        exact hsc h3
+  · intro s hp
+    constructor
+    · intro r hr; have := hp.1 r hr; simp only [resetLocals]; omega
+    · intro r hr _ h2 _
+      have := hp.1 r hr
+      simp only [resetLocals] at h2
+      omega
+  · intro _ _ _ _ _ _ _ _ _ _ _ _ hf; cases hf
+  · cases op with
+    | save t nk i => intro _; exact hc
+    | resave rows => intro x _ hf; cases hf
+    | pick a b c => trivial
+    | reset => trivial
+
 /-! ### the dense-save (table) invariant -/
 
 structure TableInv (s : St) (T : Name) : Prop where
+  le : s.localCtr T ≤ s.tableCtr T
   cur : ∀ r ∈ s.rows, r.table = T → r.since = s.epoch → r.resaved = false →
     s.localCtr T < r.id ∧ r.id ≤ s.tableCtr T
   fill : ∀ i, s.localCtr T < i → i ≤ s.tableCtr T →
     ∃ r ∈ s.rows, r.table = T ∧ r.id = i ∧ r.since = s.epoch ∧ r.resaved = false
-  ex : ∀ i, 1 ≤ i → i ≤ max (s.tableCtr T) (s.localCtr T) →
-    i ≤ s.prior T ∨ ∃ r ∈ s.rows, r.table = T ∧ r.id = i
+  ex : ∀ i, 1 ≤ i → i ≤ s.tableCtr T → i ≤ s.prior T ∨ ∃ r ∈ s.rows, r.table = T ∧ r.id = i
   ep : ∀ r ∈ s.rows, r.since ≤ s.epoch
 
-theorem newTableCtr_table (nm : List (Name × Name)) (s : St) (t : Name) (nk : Option Name) (i : Nat)
-    (T : Name) (hT : nm.lookup T = none) (hwn : ∀ n, nk = some n → nm.lookup n = some t) :
-    newTableCtr s t nk i T = if T = t then i else s.tableCtr T := by
-  cases nk with
-  | none => simp [newTableCtr, upd]
-  | some n' =>
-    have : T ≠ n' := by intro e; have := hwn n' rfl; rw [← e, hT] at this; cases this
-    simp [newTableCtr, upd, this]
+/-- side condition of a single save under `DenseOp` -/
+def DenseSave (s : St) (t : Name) (i : Nat) (rs : Bool) : Prop :=
+  if rs then i ≤ s.tableCtr t else i = s.tableCtr t + 1
 
-theorem tableInv_step (nm : List (Name × Name)) (T : Name) (hT : nm.lookup T = none)
-    (s : St) (op : Op) (s1 : St) (o : Obs) (_hnm : s.nickToTable = nm) (hi : TableInv s T)
-    (hw : WellNamedOp nm op) (hd : DenseOp s op) (h : step s op = .ok (s1, o)) : TableInv s1 T := by
-  rcases step_ok_cases h with ⟨t, nk, i, rs, rfl, hs⟩ | ⟨_, _, _, -, rfl⟩ | ⟨-, rfl⟩
-  · obtain ⟨-, -, rfl⟩ := save_ok hs
-    obtain ⟨-, hwn⟩ := wellNamed_save hw
-    have htc := newTableCtr_table nm s t nk i T hT hwn
-    have hep : ∀ r ∈ s.rows ++ [newRow s t nk i rs], r.since ≤ s.epoch := by
-      intro r hr
-      simp only [List.mem_append, List.mem_singleton] at hr
-      rcases hr with hr | rfl
-      · exact hi.ep r hr
-      · exact Nat.le_refl _
-    by_cases htT : T = t
-    · subst htT
-      simp only [if_true] at htc
-      cases rs with
-      | false =>
-        simp only [DenseOp] at hd
-        refine ⟨?_, ?_, ?_, hep⟩
-        · intro r hr h1 h2 h3
-          simp only [List.mem_append, List.mem_singleton] at hr
-          simp only [htc]
-          rcases hr with hr | rfl
-          · have := hi.cur r hr h1 h2 h3; omega
-          · simp only [newRow]; omega
-        · intro j h1 h2
-          dsimp only at h1 h2
-          simp only [htc] at h2
-          by_cases hj : j = i
-          · subst hj
-            exact ⟨newRow s T nk j false, by simp, rfl, rfl, rfl, rfl⟩
-          · obtain ⟨r, hr, h3⟩ := hi.fill j h1 (by omega)
-            exact ⟨r, by simp [hr], h3⟩
-        · intro j h1 h2
-          simp only [htc] at h2
-          by_cases hj : j = i
-          · subst hj
-            exact Or.inr ⟨newRow s T nk j false, by simp, rfl, rfl⟩
-          · rcases hi.ex j h1 (by omega) with h3 | ⟨r, hr, h3⟩
-            · exact Or.inl h3
-            · exact Or.inr ⟨r, by simp [hr], h3⟩
-      | true =>
-        simp only [DenseOp] at hd
-        refine ⟨?_, ?_, ?_, hep⟩
-        · intro r hr h1 h2 h3
-          simp only [List.mem_append, List.mem_singleton] at hr
-          rcases hr with hr | rfl
-          · have := hi.cur r hr h1 h2 h3; omega
-          · simp [newRow] at h3
-        · intro j h1 h2
-          dsimp only at h1 h2
-          simp only [htc] at h2
-          omega
-        · intro j h1 h2
-          simp only [htc] at h2
-          rcases hi.ex j h1 (by omega) with h3 | ⟨r, hr, h3⟩
+theorem tableInv_save (nm : List (Name × Name)) (T : Name) (hT : nm.lookup T = none)
+    (s : St) (t : Name) (nk : Option Name) (i : Nat) (rs : Bool) (s' : St)
+    (hi : TableInv s T) (hw : WNSave nm t nk) (hd : DenseSave s t i rs)
+    (hs : save s t nk i rs = .ok s') : TableInv s' T := by
+  obtain ⟨-, -, rfl⟩ := save_ok hs
+  have htc := newTableCtr_table nm s t nk i T hT (wnSave_iff hw).2
+  have hep : ∀ r ∈ s.rows ++ [newRow s t nk i rs], r.since ≤ s.epoch := by
+    intro r hr
+    simp only [List.mem_append, List.mem_singleton] at hr
+    rcases hr with hr | rfl
+    · exact hi.ep r hr
+    · exact Nat.le_refl _
+  have hle := hi.le
+  by_cases htT : T = t
+  · subst htT
+    simp only [if_true] at htc
+    cases rs with
+    | false =>
+      simp only [DenseSave, Bool.false_eq_true, if_false] at hd
+      have htc' : newTableCtr s T nk i T = i := by rw [htc]; omega
+      refine ⟨?_, ?_, ?_, ?_, hep⟩
+      · simp only [htc']; omega
+      · intro r hr h1 h2 h3
+        simp only [List.mem_append, List.mem_singleton] at hr
+        simp only [htc']
+        rcases hr with hr | rfl
+        · have := hi.cur r hr h1 h2 h3; omega
+        · simp only [newRow]; omega
+      · intro j h1 h2
+        dsimp only at h1 h2
+        simp only [htc'] at h2
+        by_cases hj : j = i
+        · subst hj
+          exact ⟨newRow s T nk j false, by simp, rfl, rfl, rfl, rfl⟩
+        · obtain ⟨r, hr, h3⟩ := hi.fill j h1 (by omega)
+          exact ⟨r, by simp [hr], h3⟩
+      · intro j h1 h2
+        simp only [htc'] at h2
+        by_cases hj : j = i
+        · subst hj
+          exact Or.inr ⟨newRow s T nk j false, by simp, rfl, rfl⟩
+        · rcases hi.ex j h1 (by omega) with h3 | ⟨r, hr, h3⟩
           · exact Or.inl h3
           · exact Or.inr ⟨r, by simp [hr], h3⟩
-    · simp only [htT, if_false] at htc
-      have hold : ∀ r ∈ s.rows ++ [newRow s t nk i rs], r.table = T → r ∈ s.rows := by
-        intro r hr hrt
+    | true =>
+      simp only [DenseSave, if_true] at hd
+      have htc' : newTableCtr s T nk i T = s.tableCtr T := by rw [htc]; omega
+      refine ⟨?_, ?_, ?_, ?_, hep⟩
+      · simp only [htc']; exact hle
+      · intro r hr h1 h2 h3
         simp only [List.mem_append, List.mem_singleton] at hr
+        simp only [htc']
         rcases hr with hr | rfl
-        · exact hr
-        · exact absurd hrt.symm htT
-      refine ⟨?_, ?_, ?_, hep⟩
-      · intro r hr h1 h2 h3; simp only [htc]; exact hi.cur r (hold r hr h1) h1 h2 h3
+        · exact hi.cur r hr h1 h2 h3
+        · simp [newRow] at h3
       · intro j h1 h2
-        simp only [htc] at h2
+        dsimp only at h1 h2
+        simp only [htc'] at h2
         obtain ⟨r, hr, h3⟩ := hi.fill j h1 h2
         exact ⟨r, by simp [hr], h3⟩
       · intro j h1 h2
-        simp only [htc] at h2
+        simp only [htc'] at h2
         rcases hi.ex j h1 h2 with h3 | ⟨r, hr, h3⟩
         · exact Or.inl h3
         · exact Or.inr ⟨r, by simp [hr], h3⟩
-  · exact hi
-  · refine ⟨?_, ?_, ?_, ?_⟩
-    · intro r hr h1 h2 h3
-      have := hi.ep r hr
-      simp only [resetLocals] at h2
-      omega
+  · simp only [htT, if_false] at htc
+    have hold : ∀ r ∈ s.rows ++ [newRow s t nk i rs], r.table = T → r ∈ s.rows := by
+      intro r hr hrt
+      simp only [List.mem_append, List.mem_singleton] at hr
+      rcases hr with hr | rfl
+      · exact hr
+      · exact absurd hrt.symm htT
+    refine ⟨?_, ?_, ?_, ?_, hep⟩
+    · simp only [htc]; exact hle
+    · intro r hr h1 h2 h3; simp only [htc]; exact hi.cur r (hold r hr h1) h1 h2 h3
     · intro j h1 h2
-      simp only [resetLocals] at h1 h2
-      omega
+      simp only [htc] at h2
+      obtain ⟨r, hr, h3⟩ := hi.fill j h1 h2
+      exact ⟨r, by simp [hr], h3⟩
     · intro j h1 h2
-      simp only [resetLocals] at h2
-      exact hi.ex j h1 (by omega)
-    · intro r hr
-      have := hi.ep r hr
-      simp only [resetLocals]; omega
+      simp only [htc] at h2
+      rcases hi.ex j h1 h2 with h3 | ⟨r, hr, h3⟩
+      · exact Or.inl h3
+      · exact Or.inr ⟨r, by simp [hr], h3⟩
+
+theorem tableInv_reset (s : St) (T : Name) (hi : TableInv s T) : TableInv (resetLocals s) T := by
+  refine ⟨Nat.le_refl _, ?_, ?_, hi.ex, ?_⟩
+  · intro r hr h1 h2 h3
+    have := hi.ep r hr
+    simp only [resetLocals] at h2
+    omega
+  · intro j h1 h2
+    simp only [resetLocals] at h1 h2
+    omega
+  · intro r hr
+    have := hi.ep r hr
+    simp only [resetLocals]; omega
+
+theorem tableInv_step (nm : List (Name × Name)) (T : Name) (hT : nm.lookup T = none)
+    (s : St) (op : Op) (s1 : St) (o : Obs) (hnm : s.nickToTable = nm) (hi : TableInv s T)
+    (hw : WellNamedOp nm op) (hd : DenseOp s op) (h : step s op = .ok (s1, o)) : TableInv s1 T := by
+  refine step_lift nm (fun s => TableInv s T) DenseSave
+    (fun s t nk i rs s' _ hp hw hsc hs => tableInv_save nm T hT s t nk i rs s' hp hw hsc hs)
+    (fun s hp => tableInv_reset s T hp) ?_ s op s1 o hnm hi hw ?_ h
+  · intro s t nk i s' t' i' _ hw ht' hs hsc
+    simp only [DenseSave, if_true] at hsc ⊢
+    obtain ⟨-, -, rfl⟩ := save_ok hs
+    have := newTableCtr_table nm s t nk i t' ht' (wnSave_iff hw).2
+    simp only [this]
+    split <;> omega
+  · cases op with
+    | save t nk i => simpa [DenseSave, DenseOp] using hd
+    | resave rows => intro x hx; simpa [DenseSave] using hd x hx
+    | pick a b c => trivial
+    | reset => trivial
 
 theorem tableInv_init (counters : List (Name × Nat)) (tables : List Name) (nickmap : List (Name × Name))
     (T : Name) : TableInv (init counters tables nickmap) T := by
-  refine ⟨?_, ?_, ?_, ?_⟩ <;> simp [init]
+  refine ⟨?_, ?_, ?_, ?_, ?_⟩ <;> simp [init]
+
+/-! ### ids are unique per history table (sqlite `UNIQUE`, modelled by `save`) -/
+
+def IdsUnique (s : St) : Prop :=
+  ∀ r1 ∈ s.rows, ∀ r2 ∈ s.rows, r1.table = r2.table → r1.id = r2.id → r1 = r2
+
+theorem idsUnique_save {s s' : St} {t : Name} {nk : Option Name} {i : Nat} {rs : Bool}
+    (hi : IdsUnique s) (hs : save s t nk i rs = .ok s') : IdsUnique s' := by
+  obtain ⟨-, hne, rfl⟩ := save_ok hs
+  intro r1 h1 r2 h2 ht hid
+  simp only [List.mem_append, List.mem_singleton] at h1 h2
+  rcases h1 with h1 | rfl <;> rcases h2 with h2 | rfl
+  · exact hi r1 h1 r2 h2 ht hid
+  · exact absurd ⟨ht, hid⟩ (hne r1 h1)
+  · exact absurd ⟨ht.symm, hid.symm⟩ (hne r2 h2)
+  · rfl
+
+theorem idsUnique_saveAll (rows : List (Name × Option Name × Nat)) : ∀ {s s' : St},
+    IdsUnique s → saveAll s rows = .ok s' → IdsUnique s' := by
+  induction rows with
+  | nil => intro s s' hi h; simp only [saveAll, Except.ok.injEq] at h; cases h; exact hi
+  | cons x rest ih =>
+    intro s s' hi h
+    obtain ⟨s1, h1, h2⟩ := saveAll_cons_ok h
+    exact ih (idsUnique_save hi h1) h2
+
+theorem ids_unique_run (ops : List Op) : ∀ (s s' : St), IdsUnique s → run s ops = .ok s' → IdsUnique s' := by
+  induction ops with
+  | nil => intro s s' hi h; simp only [run, Except.ok.injEq] at h; cases h; exact hi
+  | cons op ops ih =>
+    intro s s' hi h
+    obtain ⟨s1, o, h1, h2⟩ := run_cons_ok h
+    refine ih s1 s' ?_ h2
+    rcases step_ok_cases h1 with ⟨t, nk, i, -, hs⟩ | ⟨_, _, _, -, rfl⟩ | ⟨-, rfl⟩ | ⟨rows, s2, -, hs, rfl⟩
+    · exact idsUnique_save hi hs
+    · exact hi
+    · exact hi
+    · exact (idsUnique_saveAll rows hi hs : IdsUnique s2)
 
 end SnowModel.Proofs.C10
